@@ -125,10 +125,85 @@ def ast_node(proto, d):
     return node
 
 
+def compact_lines(ctx, parse, lint, n):
+    """Several offending definitions on ONE source line (line breaks are optional in the language): each of them must still get its own
+    warning.  Texts are written directly (the printer puts one definition per line)."""
+    res = ctx.res
+    W = ["Amber", "Birch", "Cedar", "Dune", "Ember", "Fjord", "Grove", "Heath"]
+    for k in range(n):
+        rng = ctx.rng("compact", ctx.shard, k)
+        rng.shuffle(W)
+        cnt = rng.choice([2, 2, 3, 4])
+        sep = rng.choice([" ", "  ", "   "])  # (no `;` after a closing brace: the grammar takes it only after statements)
+        lines, expect = ["proto compact"], []   # expect: (line number, rule, [offending names])
+        kinds = ["enum-without-zero", "type-not-pascal:message", "field-not-snake", "constant-not-upper", "type-not-pascal:alias", "enum-member-not-upper",
+                 "type-not-pascal:enum"]
+        rng.shuffle(kinds)
+        for rule in kinds[:rng.randint(2, 5)]:
+            tag = W[len(lines) % len(W)]
+            if rule == "enum-without-zero":
+                names = [f"{tag}Kind{chr(65 + j)}" for j in range(cnt)]
+                text = sep.join(f"enum {nm} : uint3 {{ {tag.upper()}_{chr(65 + j)}_ONE = {j + 1} }}" for j, nm in enumerate(names))
+            elif rule == "type-not-pascal:message":
+                names = [f"{tag.lower()}_msg_{chr(97 + j)}" for j in range(cnt)]
+                text = sep.join(f"message {nm} {{ uint3 a = 1 }}" for nm in names)
+            elif rule == "type-not-pascal:enum":
+                names = [f"{tag.lower()}_enum_{chr(97 + j)}" for j in range(cnt)]
+                text = sep.join(f"enum {nm} : uint3 {{ {tag.upper()}_E{chr(65 + j)}_ZERO = 0 }}" for j, nm in enumerate(names))
+            elif rule == "field-not-snake":
+                names = [f"Bad{tag}{chr(65 + j)}" for j in range(cnt)]
+                text = f"message {tag}Holder {{ " + "; ".join(f"uint3 {nm} = {j + 1}" for j, nm in enumerate(names)) + " }"
+            elif rule == "constant-not-upper":
+                names = [f"{tag.lower()}_const_{chr(97 + j)}" for j in range(cnt)]
+                text = "; ".join(f"const {nm} = {j + 1}" for j, nm in enumerate(names))
+            elif rule == "type-not-pascal:alias":
+                names = [f"{tag.lower()}_alias_{chr(97 + j)}" for j in range(cnt)]
+                text = "; ".join(f"type {nm} = uint{j + 2}" for j, nm in enumerate(names))
+            else:
+                names = [f"{tag.lower()}_member_{chr(97 + j)}" for j in range(cnt)]
+                text = f"enum {tag}Members : uint4 {{ {tag.upper()}_M_ZERO = 0; " + "; ".join(f"{nm} = {j + 1}" for j, nm in enumerate(names)) + " }"
+            lines.append(text)
+            expect.append((len(lines), rule, names))
+        text = "\n".join(lines) + "\n"
+        d = ctx.casedir(f"compact{k}")
+        wit = {"part": "compact-lines", "k": k, "shard": ctx.shard, "schema": {"compact.bitproto": text}}
+        try:
+            path = os.path.join(d, "compact.bitproto")
+            with open(path, "w") as fh:
+                fh.write(text)
+            try:
+                with sut_compiler.quiet_stderr():
+                    proto = parse(path)
+                with sut_compiler.quiet_stderr() as buf:
+                    lint(proto)
+            except Exception as e:
+                res.violation("lint-case-rejected", f"[compact] {type(e).__name__}: {str(e)[:200]}", wit)
+                continue
+            warnings = [(os.path.basename(f), int(ln), tok, msg) for f, ln, tok, msg in WARN_RE.findall(buf.getvalue())]
+            if not warnings:
+                res.inconclusive.append("no recognisable lint warning for a schema full of violations (diagnostic format changed?)")
+                continue
+            named = any(tok in nm_list for (_, _, tok, _) in warnings for (_, _, nm_list) in expect)
+            for (ln, rule, names) in expect:
+                here = [w for w in warnings if w[0] == "compact.bitproto" and w[1] == ln and "ndent" not in w[3]]
+                res.count("compact_line_definitions_checked", len(names))
+                missing = [nm for nm in names if not any(w[2] == nm for w in here)] if named else []
+                if len(here) < len(names) or missing:
+                    res.violation("lint-missing-warning:" + rule.split(":")[0] + ":several-on-one-line",
+                                  f"{len(names)} definitions on compact.bitproto:L{ln} break `{rule}`, {len(here)} warnings cite that line" +
+                                  (f"; none names {missing}" if missing else ""), {**wit, "line": ln, "rule": rule, "names": names, "warnings": here[:8]})
+        finally:
+            shutil.rmtree(d, ignore_errors=True)
+
+
 def worker(ctx):
     res = ctx.res
     contracts.install()
     parse, _, render, lint, errors = sut_compiler.bitproto_api()
+    if ctx.replay is None or ctx.replay["witness"].get("part") == "compact-lines":
+        compact_lines(ctx, parse, lint, 12 if ctx.quick else 200)
+        if ctx.replay is not None:
+            return
     if ctx.quick:
         n_cases, cli_every = ctx.per_shard(960), 6
         ctx.set_budget(240)
@@ -335,7 +410,7 @@ if __name__ == "__main__":
               "-q is byte-identical and -c exits non-zero exactly when there is an error or a warning"),
         assumptions=["only clear case violations are asserted to warn; nothing is asserted about indentation warnings except that conforming files have none",
                      "columns are 1-based (language server contract)"],
-        required_counters=["definition_positions_checked", "reference_positions_checked", "lint_runs", "conforming_linted", "perturbations_checked",
+        required_counters=["compact_line_definitions_checked", "definition_positions_checked", "reference_positions_checked", "lint_runs", "conforming_linted", "perturbations_checked",
                            "error_lines_checked", "advisory_pairs_compared", "check_only_runs", "perturbations:type-not-pascal", "perturbations:type-not-pascal:UPPER_SNAKE", "perturbations:field-not-snake", "perturbations:field-not-snake:UPPER_SNAKE",
                            "perturbations:constant-not-upper", "perturbations:enum-member-not-upper", "perturbations:enum-without-zero"],
     )
